@@ -19,5 +19,11 @@ git checkout -q -- . ; git clean -fdq -e SEED
 cp /var/tmp/seedkeep-$ID/without.log /var/tmp/seedkeep-$ID/with.log /verif/seeded/$ID/ 2>/dev/null
 rm -rf /var/tmp/seedkeep-$ID
 echo "--- check $ID with the seeded patch"
-cd /verif && timeout 2400 ./check $ID --mutant seeded/$ID/patch.diff 2>&1 | grep -v "^built" | cut -c1-400 | head -8
-echo "demo_without_exit=$W demo_with_exit=$P"
+cd /verif && timeout 2400 ./check $ID --mutant seeded/$ID/patch.diff > /var/tmp/seedcheck-$ID.log 2>&1; C=$?
+grep -v "^built" /var/tmp/seedcheck-$ID.log | cut -c1-400 | head -8
+SIGS=$(grep -o "signature=[^ ]*" /var/tmp/seedcheck-$ID.log | sort -u | tr '\n' ' ')
+cat > /verif/seeded/$ID/confirm.json <<EOT
+{"property": "$ID", "demo_exit_without_patch": $W, "demo_exit_with_patch": $P, "check_cmd": "./check $ID --mutant seeded/$ID/patch.diff", "check_exit": $C, "check_signatures": "$SIGS", "confirmed_by": "seedproc.sh in the scratch worktree /tmp/seed-$ID (removed afterwards)"}
+EOT
+rm -f /var/tmp/seedcheck-$ID.log
+echo "demo_without_exit=$W demo_with_exit=$P check_exit=$C"
